@@ -30,12 +30,15 @@ SPACES = {
         (dict(nv=3, maxl=2, classes=("D", "U", "O"), mutations=True), "FULL"),
     ],
 }
-CFG = {"FULL": trav.FULL, "REDUCED": trav.REDUCED, "LEAN": trav.LEAN}
+CFG = {"FULL": trav.FULL, "REDUCED": trav.REDUCED, "LEAN": trav.LEAN, "FAMILY": trav.FAMILY}
+# deterministic shapes at a ladder of sizes
+SPACES["quick"] += [(sp, "FAMILY") for sp in engine_g.family_specs(list(range(4, 13)) + [16, 17])]
+SPACES["thorough"] += [(sp, "FAMILY") for sp in engine_g.family_specs(list(range(4, 13)) + [16, 17, 32, 33])]
 _cfgname = None
 
 
 def _plain(spec):
-    return {k: (list(v) if isinstance(v, tuple) else v) for k, v in spec.items()}
+    return {k: (list(v) if isinstance(v, tuple) else v) for k, v in spec.items() if k != "explicit"}
 
 
 def per_state(spec, seq, w):
